@@ -38,6 +38,8 @@ type readSeekCloser struct {
 	size   int64
 	offset int64
 	closed bool
+	// verify, if not nil, checks every range response before its body is used.
+	verify func(resp *http.Response) error
 }
 
 // NewReadSeekCloser returns a seeker to make the HTTP response seekable.
@@ -48,6 +50,19 @@ func NewReadSeekCloser(client Client, req *http.Request, respBody io.ReadCloser,
 		req:    req,
 		rc:     respBody,
 		size:   size,
+	}
+}
+
+// NewVerifiedReadSeekCloser is like NewReadSeekCloser, and in addition passes
+// the response of every range request made by Seek to verify. Seek fails if
+// verify returns an error.
+func NewVerifiedReadSeekCloser(client Client, req *http.Request, respBody io.ReadCloser, size int64, verify func(resp *http.Response) error) io.ReadSeekCloser {
+	return &readSeekCloser{
+		client: client,
+		req:    req,
+		rc:     respBody,
+		size:   size,
+		verify: verify,
 	}
 }
 
@@ -98,6 +113,12 @@ func (rsc *readSeekCloser) Seek(offset int64, whence int) (int64, error) {
 	if resp.StatusCode != http.StatusPartialContent {
 		resp.Body.Close()
 		return 0, fmt.Errorf("seek: %s %q: unexpected status code %d", resp.Request.Method, resp.Request.URL, resp.StatusCode)
+	}
+	if rsc.verify != nil {
+		if err := rsc.verify(resp); err != nil {
+			resp.Body.Close()
+			return 0, fmt.Errorf("seek: %w", err)
+		}
 	}
 
 	rsc.rc.Close()
